@@ -92,6 +92,7 @@ fn main() {
         threads,
     };
     let code = match cmd.as_str() {
+        "c01" => tmon::c01::run(&ctx),
         "c02" => tmon::c02::run(&ctx),
         _ => {
             let _ = rest;
